@@ -144,7 +144,8 @@ theorem C13c_quiescent_exact {c : Cfg} {s : State} (h : Reach c s) (hq : Quiesce
 /-- `drift` changes only in the capacity pass's map section -/
 theorem C13c_drift_frame {c : Cfg} {s s' : State} {t : Nat} {l : Label} (h : step c s t l = some s')
     (h2 : ∀ b, l ≠ .capMap b) : s'.drift = s.drift ∧ s'.dirty = s.dirty := by
-  cases l <;> simp only [step] at h
+  replace h := step_step0 h
+  cases l <;> simp only [step0] at h
   case capMap b => exact absurd rfl (h2 b)
   case advance d => simp at h; subst h; exact ⟨rfl, rfl⟩
   case call op a =>
@@ -160,7 +161,7 @@ theorem C13c_drift_frame {c : Cfg} {s s' : State} {t : Nat} {l : Label} (h : ste
     | (unfold stepRecv at h) | (unfold stepAdmit at h) | (unfold stepVictim at h) | (unfold stepEvSub at h)
     | (unfold stepEvNote at h) | (unfold stepTtlAdvance at h) | (unfold stepTtlMap at h) | (unfold stepCapLoad at h)
     | (unfold stepCapEvict at h) | (unfold stepCapSub at h) | (unfold stepUnlock at h) | (unfold stepClear at h)
-    | (unfold stepTtiMap at h)
+    | (unfold stepTtiMap at h) | (unfold stepClrAcq at h) | (unfold stepClrGet at h)
   all_goals (repeat' split at h)
   all_goals (simp at h; try subst h)
   all_goals exact ⟨rfl, rfl⟩
@@ -169,9 +170,10 @@ theorem C13c_drift_frame {c : Cfg} {s s' : State} {t : Nat} {l : Label} (h : ste
 their cost in the same critical section; the adjustments other threads still owe are untouched. -/
 theorem C13c_clear_exact {c : Cfg} {s s' : State} {t : Nat} (h : step c s t .clear = some s') :
     s'.cur = s.cur - residentCost s ∧ residentCost s' = 0 ∧ s'.drift = s.drift ∧ s'.dirty = s.dirty := by
-  simp only [step] at h
+  replace h := step_step0 h
+  simp only [step0] at h
   unfold stepClear at h; split at h
-  · simp at h; subst h
+  · simp at h; obtain ⟨_, h⟩ := h; subst h
     refine ⟨rfl, ?_, rfl, rfl⟩
     simp only [residentCost]
     exact sumF_zero (by intros; rfl)
@@ -182,7 +184,8 @@ theorem C13c_clear_exact {c : Cfg} {s s' : State} {t : Nat} (h : step c s t .cle
 theorem C13c_drift_capMap {c : Cfg} {s s' : State} {t : Nat} {b : Bool} (h : step c s t (.capMap b) = some s') :
     ∃ m victims released, s.pc t = .mCapMap m victims released ∧
       s'.drift = s.drift + removedCost (removeKeys c.nShards m.sh s.map victims).2 - released := by
-  simp only [step] at h
+  replace h := step_step0 h
+  simp only [step0] at h
   unfold stepCapMap at h; split at h
   · rename_i m victims released hpc
     simp at h; subst h; exact ⟨m, victims, released, hpc, rfl⟩
@@ -220,7 +223,7 @@ def cfg3 : Cfg := { nThreads := 2, nShards := 1, capacity := 3 }
 With `clear` subtracting the removed cost the counter passes through −5 (the `u64` wraps) and ends at
 0 = resident cost. Kept as a regression example. -/
 def traceClearOverlap : List (Nat × Label) :=
-  [(0, .call (.insert 1 10 5 none) false), (0, .insMap), (1, .call .clear false), (1, .clear),
+  [(0, .call (.insert 1 10 5 none) false), (0, .insMap), (1, .call .clear false), (1, .clrAcq 0), (1, .clear),
    (0, .insEv), (0, .insAdd), (0, .coopSkip)]
 
 /-- capacity 3; thread 0 inserts keys 0 and 1 (cost 2 each); thread 1's maintenance pass admits
